@@ -77,7 +77,16 @@ func checkFraming(name string, p parser, w []byte, res parseRes, allCuts bool) [
 			}
 		}
 		for _, k := range cuts {
-			r3 := p(append([]byte{}, w[:k]...))
+			in := append([]byte{}, w[:k]...)
+			r3 := p(in)
+			if !bytes.Equal(in, w[:k]) {
+				// a parser only reads its input — also when it rejects it: a later parse of the same buffer (the
+				// complete structure, once more bytes have arrived) must see what the sender wrote
+				for _, pr := range []string{"C03", "C01"} {
+					fails = append(fails, fail(pr, "input-modified:"+name, "%s on the %d-byte prefix of a %d-byte encoding changed the caller's buffer (accepted=%v): %s → %s", name, k, len(w), r3.ok, trunc(hx(w[:k]), 40), trunc(hx(in), 40)))
+				}
+				break
+			}
 			if r3.ok {
 				fails = append(fails, fail("C03", "prefix:"+name, "%s: the %d-byte prefix of a completely consumed %d-byte encoding is accepted", name, k, len(w)))
 				break
